@@ -206,7 +206,9 @@ func (w *world) build() {
 func (w *world) do(r Req) *fasthttp.RequestCtx {
 	var hdr []string
 	if r.CC != "" {
-		hdr = []string{"Cache-Control", r.CC}
+		for _, line := range strings.Split(r.CC, "\n") { // (a list may come in several field lines)
+			hdr = append(hdr, "Cache-Control", line)
+		}
 	}
 	return vk.Do(w.app, r.Method, w.uri(r), hdr...)
 }
@@ -225,7 +227,9 @@ func (w *world) doSeq(r Req) *fasthttp.RequestCtx {
 	req.Header.SetMethod(r.Method)
 	req.SetRequestURI(w.uri(r))
 	if r.CC != "" {
-		req.Header.Set("Cache-Control", r.CC)
+		for _, line := range strings.Split(r.CC, "\n") {
+			req.Header.Add("Cache-Control", line)
+		}
 	}
 	ctx.Response.Reset() // keeps the body buffer, as the server does between two requests of a connection
 	ctx.ResetUserValues()
@@ -550,7 +554,9 @@ func genReq(t *rapid.T, c Case) Req {
 			"/a_HEAD", "/a_body", "/a_GET"}).Draw(t, "p"), V: rapid.SampledFrom([]string{"1", "1", "2"}).Draw(t, "v"),
 		CC: rapid.SampledFrom([]string{"", "", "", "", "", "", "", "", "no-cache", "no-cache", "no-store", "no-store",
 			// directive names are case-insensitive, and a list needs no blank after the comma (RFC 9111 5.2, RFC 9110 5.6.1)
-			"No-Cache", "NO-STORE", "max-age=0,no-cache", "no-cache,no-store", "max-age=0, no-store"}).Draw(t, "cc"),
+			"No-Cache", "NO-STORE", "max-age=0,no-cache", "no-cache,no-store", "max-age=0, no-store",
+			// ... and the members of the list may arrive in several field lines (RFC 9110 5.3)
+			"max-age=0\nno-store", "max-stale=5\nno-cache"}).Draw(t, "cc"),
 		Inv: rapid.IntRange(0, 5).Draw(t, "inv") == 0, TTL0: rapid.IntRange(0, 3).Draw(t, "ttl0") == 0}
 	if c.UseNext {
 		r.Skip = rapid.IntRange(0, 4).Draw(t, "skip") == 0
